@@ -243,7 +243,7 @@ Fixpoint te (idiom : string) (e : ex) (n : nat) : list decl * stmts * cexp * nat
   | EFun f a => let '(da, sa, ca, n1) := te idiom a n in (da, sa, CCall f (CCons ca CNil), n1)
   end.
 
-Definition col_name (n : nat) : string := nm "_col1" n.   (* = mem_name "col1" n *)
+Definition col_name (n : nat) : string := nm "_col1" n.   (* = mem_name "col1" n (cident "col1" = "col1") *)
 
 Definition prog (bk : backend) (e : ex) (n0 : nat) : program :=
   let '(ds, ss, c, n) := te (b_idiom bk) e n0 in
@@ -276,7 +276,7 @@ Definition col_type (c : column) : string :=
   match c with ColScalar e => ex_type e | ColVec _ _ body => vec_type (btype body) | ColFirst _ _ body _ => pa_type body end.
 
 (* class variable of column k: unique_name(name, is_class_var=True) after all per-event names *)
-Definition mem_name (name : string) (idx : nat) : string := nm ("_" +++ name) idx.
+Definition mem_name (name : string) (idx : nat) : string := nm ("_" +++ cident name) idx.
 
 Definition vcv_name (c : collref) (n : nat) : string := nm (c_base c) n.
 Definition tvec_loop (c : collref) (g : guard) (body : bexp) (mem : string) (n : nat) : stmt :=
